@@ -540,3 +540,8 @@ func writeDoc(d Doc, extra ...string) (Result, *smfread.Song, error) {
 	}
 	return res, song, nil
 }
+
+func decode(b []byte) (Result, *smfread.Song, error) {
+	song, err := smfread.ReadSMF(b)
+	return Result{}, song, err
+}
